@@ -2,3 +2,4 @@ import PlumpyModel.PM.Proof5
 import PlumpyModel.Outline.Proof
 import PlumpyModel.Expose.Proof
 import PlumpyModel.Ports.Model
+import PlumpyModel.Props.C18
